@@ -9,7 +9,9 @@ def inv(x, p):
     x %= p
     if x == 0:
         raise ZeroDivisionError("inverse of 0 mod %d" % p)
-    return pow(x, p - 2, p)       # Fermat; p prime
+    if p < (1 << 64):
+        return pow(x, p - 2, p)   # Fermat; p prime
+    return pow(x, -1, p)          # interpreter built-in (speed at 521 bits)
 
 
 def on_curve(P, p, a, b):
